@@ -361,6 +361,10 @@ func checkC03(r *Report) {
 		}
 	}
 
+	// SEP-BYTES
+	nSB := sepBytesRule(r, p, "C03/SEP-BYTES")
+	r.floor("C03/SEP-BYTES", "separator bytes accepted by pep440's allowSeparator", nSB, 3)
+
 	// EXHAUSTIVE: token kinds used as values vs parser cases
 	unary := map[string]bool{}
 	for _, t := range tables {
